@@ -17,6 +17,7 @@ class Config:
         self.name, self.contract, self.setup, self.replay, self.finite = name, contract, setup, replay, finite
         self.bmc = None          # optional: callable -> Config for bounded refutation by loop unrolling
         self.bmc_domain = (-1, 8)
+        self.small = None        # optional: callable(ex) -> extra constraints asking for a small counter-model (replay size)
 
 
 class Target:
@@ -117,9 +118,12 @@ def generate(targets, report):
             if t.body_slice is not None:
                 import ast as _ast, hashlib as _hl, copy as _copy
                 a, b_ = t.body_slice(fn.body)
+                full = fn.body
                 fn = _copy.copy(fn)
-                fn.body = fn.body[a:b_]
-                if not fn.body:
+                # helper functions defined earlier in the same function stay visible to the phase (a def has no other effect)
+                helpers = [x for x in full[:a] if isinstance(x, _ast.FunctionDef)]
+                fn.body = helpers + full[a:b_]
+                if not full[a:b_]:
                     raise ContractError('phase not found')
                 sha = _hl.sha256('\n'.join(_ast.unparse(x) for x in fn.body).encode()).hexdigest()
         except ContractError as e:
